@@ -18,7 +18,7 @@ ALL_FEATURES = frozenset({
     'props',              # arbitrary properties on tables/columns (schema.allow_properties)
     'dot_in_name',        # F-DOT: quoted names containing '.'
     'quoted_type',        # F-TYPEQUOTE: column type that needs quotes ("character varying")
-    'multiline_default',  # F-MLDEFAULT: multi-line string / expression defaults
+    'multiline_default',  # F-MLDEFAULT: multi-line string / expression defaults, multi-line index names
     'multiline_settings_note',  # F-MLSET: multi-line notes in column/index/enum-item settings
     'multiline_value',    # F-MLPROP: multi-line property and project values
     'str_bool_default',   # F-STRBOOL: string default 'true'/'false'/'null'
@@ -238,7 +238,8 @@ def schemas(draw, features: FrozenSet[str] = BASE_FEATURES, sizes: Sizes = QUICK
                 if draw(st.booleans()) and len(subjects) > 1:
                     subjects = [s for s in subjects if s[0] == 'expr'] or subjects
             t.indexes.append(AIndex(
-                subjects, name=draw(st.none() | line_text(F, 1)), unique=draw(st.booleans()),
+                subjects, name=draw(st.none() | line_text(F, 1) | (st.sampled_from(['two\nlines', 'a\n  b\n']) if _has(F, 'multiline_default') else st.none())),
+                unique=draw(st.booleans()),
                 type=draw(st.none() | st.sampled_from(INDEX_TYPES)), pk=draw(st.integers(0, 4)) == 0,
                 note=draw(st.none() | st.none() | note_text(F, ml_set))))
         if props_on:
